@@ -277,6 +277,11 @@ def _limit_programs():
 SEMANTIC += _limit_programs()
 
 # found by reading a sub-agent's remarks (round 7): valid programs next to rules whose boundary no corpus program touched
+# a lambda (a synchronous function of its own) inside an async function: yield / yield from are fine in it; nested functions and classes likewise
+SEMANTIC += ['async def f():\n    g = lambda: (yield from x)\n', 'async def f():\n    return lambda: [(yield from x)]\n', 'async def f():\n    g = lambda: (yield)\n',
+             'async def f():\n    def g():\n        yield from x\n', 'async def f():\n    class C:\n        g = lambda: (yield from x)\n',
+             'async def f():\n    g = lambda a, b=1: (yield from a)\n    await z\n', 'async def f():\n    yield from x\n', 'async def f():\n    x = [(yield from y)]\n',
+             'async def f():\n    g = lambda: (lambda: (yield from x))\n', 'async def f():\n    async def h():\n        g = lambda: (yield from x)\n']
 SEMANTIC += ['f(x:=1, y)\n', 'f(a, x:=1, b)\n', 'f(x:=1, x=2)\n', 'f((x:=1), y)\n', 'f(x:=1, *y, **z)\n', 'f(a, b:=2, c=3)\n', 'print(n:=3, n)\n',
              "'a' 'b'\nfrom __future__ import division\n", "('a')\nfrom __future__ import division\n", "'d' 'e' 'f'\nfrom __future__ import annotations\nx: int\n",
              '"""a""" "b"\nfrom __future__ import print_function\n', "'a'\n'b'\nimport x\n",
@@ -770,3 +775,16 @@ def derived(r, version='3.10', start='file_input', budget=None):
             d.derive(r, 'stmt', [budget or r.choice([6, 10, 16, 25, 40])], labels)
         out.append(render(labels, r))
     return ''.join(out)
+
+# indentation errors whose offending token carries a backslash continuation (and comments / blank lines) in its prefix, with every line-end style:
+# the issue is reported at the last prefix part, whose position depends on the line counting of split_prefix
+def _indent_after_continuation():
+    out = []
+    for nl in ('\n', '\r', '\r\n'):
+        for bs in ('\\' + nl, '  \\' + nl, '\\' + nl + '\\' + nl, '# c' + nl + '\\' + nl, '\\' + nl + nl):
+            out += ['x' + nl + bs + '  y' + nl, 'if a:' + nl + '    x' + nl + bs + '  y' + nl, 'def f():' + nl + '    pass' + nl + bs + '  z' + nl + 'w' + nl,
+                    'class C:' + nl + bs + 'x' + nl, 'for i in j:' + nl + '        a' + nl + bs + '    b' + nl + bs + '      c' + nl]
+    return out
+
+
+INVALID += _indent_after_continuation()
